@@ -29,6 +29,8 @@ func c12(c *Ctx) {
 	c12R4(c)
 	c12R5(c)
 	c12R6(c)
+	c12R7(c)
+	c12R8(c)
 }
 
 func isResChSend(ins ssa.Instruction) bool {
@@ -455,4 +457,66 @@ func c12R6(c *Ctx) {
 		return g["(a1.POLRound == -1)"] || (nonneg(g) && g["(a1.Round > a1.POLRound)"])
 	})
 	c.R.Ob(rule, "accept⇒POLRound-in-window", ok, c.Pos(ver), fname(f), "the signature check is reached exactly for POLRound == -1 or 0 <= POLRound < Round (POLRound 0 included: a polka in round 0 is the common case); "+why)
+}
+
+
+// c12R7: round timeouts grow with the round (a slow proposer is eventually waited for).
+func c12R7(c *Ctx) {
+	rule := c.R.Rule("R7", "timeouts grow with the round: TimeoutParams.Propose/Prevote/Precommit(round) evaluate, for sample configurations and rounds 0..3, to (base + delta*round) milliseconds (the arithmetic of the return expression is evaluated symbolically over the SSA tree, helpers inlined; no code is run)", 3)
+	for _, m := range []string{"Propose", "Prevote", "Precommit"} {
+		f := c.Anchor(rule, "gemmill/consensus/pbft.(*TimeoutParams)."+m)
+		if f == nil {
+			continue
+		}
+		rets := f.Returns()
+		if len(rets) != 1 {
+			c.R.Undecided(rule, m+":single-return", c.P.Pos(f.F.Pos()), fname(f), "expected one return")
+			continue
+		}
+		v := f.ReturnValues(rets[0])[0]
+		ok := true
+		detail := ""
+		for _, cfg := range [][2]int64{{3000, 500}, {100, 100}, {1, 7}} {
+			for r := int64(0); r <= 3 && ok; r++ {
+				env := dtable.Env{"a0." + m + "0": cfg[0], "a0." + m + "Delta": cfg[1], "a1": r}
+				got, err := dtable.EvalInt(v, env)
+				want := (cfg[0] + cfg[1]*r) * 1000000
+				if err != nil {
+					ok, detail = false, "not evaluable: "+err.Error()
+				} else if got != want {
+					ok, detail = false, fmt.Sprintf("base=%dms delta=%dms round=%d: %d ns, want %d ns", cfg[0], cfg[1], r, got, want)
+				}
+			}
+		}
+		c.R.Ob(rule, m+":(base+delta*round)ms", ok, c.Pos(rets[0]), fname(f), "the timeout must grow by delta milliseconds per round, otherwise a proposer slower than the base timeout is never waited for and the height never commits; "+detail)
+	}
+}
+
+// c12R8: every lag of a peer is served by one catch-up branch of the vote gossip.
+func c12R8(c *Ctx) {
+	rule := c.R.Rule("R8", "vote catch-up covers every lag: in gossipVotesRoutine the same-height branch is guarded by rs.Height == prs.Height, the last-commit branch by rs.Height == prs.Height+1, and the stored-commit branch (LoadBlockCommit(prs.Height)) by rs.Height >= prs.Height+2 — a peer that is exactly two heights behind must be sent the commit of its height, nobody else will", 3)
+	f := c.Anchor(rule, "gemmill/consensus/pbft.(*ConsensusReactor).gossipVotesRoutine")
+	if f == nil {
+		return
+	}
+	rs := "gemmill/consensus/pbft.(*ConsensusState).GetRoundState(a0.conS).Height"
+	prs := "gemmill/consensus/pbft.(*PeerState).GetRoundState(a2).Height"
+	for _, ci := range f.CallsTo(cfgx.Named("gemmill/blockchain.(*BlockStore).LoadBlockCommit")) {
+		ok := f.HasGuard(ci.(ssa.Instruction), func(g string) bool {
+			return g == "("+rs+" >= ("+prs+" + 2))" || g == "("+rs+" > ("+prs+" + 1))"
+		})
+		c.R.Ob(rule, "stored-commit-branch⊣lag>=2", ok, c.Pos(ci), fname(f), "the stored commit must be offered to every peer that is two or more heights behind; "+shorten(guardsText(f, ci.(ssa.Instruction))))
+		c.R.Ob(rule, "stored-commit-branch:commit-of-peer-height", callArg(ci, 1) == prs, c.Pos(ci), fname(f), "the commit loaded must be the one of the peer's height, got "+shorten(callArg(ci, 1)))
+	}
+	nLast, nSame := 0, 0
+	for _, ci := range f.CallsTo(cfgx.Named("gemmill/consensus/pbft.(*PeerState).PickSendVote")) {
+		if strings.HasSuffix(callArg(ci, 1), ".LastCommit") && f.HasGuard(ci.(ssa.Instruction), eqs("("+rs+" == ("+prs+" + 1))")) {
+			nLast++
+		}
+		if f.HasGuard(ci.(ssa.Instruction), eqs("("+rs+" == "+prs+")")) {
+			nSame++
+		}
+	}
+	c.R.Ob(rule, "last-commit-branch⊣lag==1", nLast >= 1, c.P.Pos(f.F.Pos()), fname(f), "a peer one height behind is sent our LastCommit precommits")
+	c.R.Ob(rule, "same-height-branch⊣lag==0", nSame >= 3, c.P.Pos(f.F.Pos()), fname(f), fmt.Sprintf("%d sends under rs.Height == prs.Height", nSame))
 }
